@@ -1,40 +1,67 @@
 package main
 
 import (
+	"crypto/elliptic"
+	"crypto/sha256"
+	"encoding/json"
 	"fmt"
 	"os"
 	"path/filepath"
 	"strconv"
+	"strings"
 	"time"
 
+	"github.com/ontio/ontology-crypto/ec"
+	"github.com/ontio/ontology-crypto/keypair"
+	osig "github.com/ontio/ontology-crypto/signature"
 	"github.com/ontio/ontology-eventbus/actor"
+	"github.com/polynetwork/poly/common"
 	"github.com/polynetwork/poly/common/config"
 	"github.com/polynetwork/poly/common/log"
+	vconfig "github.com/polynetwork/poly/consensus/vbft/config"
 	"github.com/polynetwork/poly/core/genesis"
 	"github.com/polynetwork/poly/core/ledger"
+	"github.com/polynetwork/poly/core/payload"
 	"github.com/polynetwork/poly/core/types"
 	"github.com/polynetwork/poly/errors"
+	"github.com/polynetwork/poly/native"
+	"github.com/polynetwork/poly/native/states"
 	"github.com/polynetwork/poly/validator/stateful"
 	vatypes "github.com/polynetwork/poly/validator/types"
 	"polyverif/internal/hx"
 )
 
-// Family stateful (C38, last clause): the real stateful validator actor over a real ledger that holds the
-// genesis block.
+// Family stateful (C38, last clause): the real stateful validator actor over a real ledger that grows by real,
+// signed blocks (the harness plays a 4-validator VBFT consensus, as harness/cmd/hmledger does).
 //
-//	ledger <n>        -> ok    fresh ledger in $TMPDIR initialised with the genesis block (n transactions), DefLedger set,
-//	                           validator actor spawned
-//	check g <i>       -> ok | dup | unknown    CheckTx for the i-th genesis transaction
-//	check n <i>       -> ...                   CheckTx for a transaction that is not in the ledger
+//	ledger                      -> ok    fresh ledger in $TMPDIR with an empty genesis block, DefLedger set, validator spawned
+//	commit <s|a> <i> <j> ...    -> ok    next block with transactions i, j, ... built, signed, executed and committed
+//	                                     (s: ExecuteBlock+SubmitBlock, a: ExecuteBlock+AddBlock)
+//	check <i>                   -> ok | dup | unknown    CheckTx for transaction i through the validator actor
+//
+// Oracle: at every check the verdict must equal ledger.IsContainTransaction at that moment, and must equal the
+// harness's own set of committed transactions.
 type statefulFam struct {
-	dir    string
-	pid    *actor.PID
-	gen    *types.Block
-	serial int
+	dir       string
+	pid       *actor.PID
+	serial    int
+	committed map[int]bool
 }
+
+type stKey struct {
+	priv *ec.PrivateKey
+	pub  keypair.PublicKey
+	id   string
+}
+
+var (
+	stKeys []*stKey
+	stTxs  []*types.Transaction
+)
 
 func init() { families["stateful"] = func() hx.Family { return &statefulFam{} } }
 
+// genesisBlock is the default-configuration genesis block (used by the blockdigest family).
 func genesisBlock() *types.Block {
 	bk, err := config.DefConfig.GetBookkeepers()
 	if err != nil {
@@ -47,23 +74,133 @@ func genesisBlock() *types.Block {
 	return b
 }
 
-func (f *statefulFam) Reset(r *hx.Run) {
-	f.close()
+func stSetup() {
+	if stKeys != nil {
+		return
+	}
+	log.InitLog(log.FatalLog)
+	config.DefConfig.P2PNode.NetworkId = config.NETWORK_ID_TEST_NET
+	config.DefConfig.Genesis.ConsensusType = config.CONSENSUS_TYPE_VBFT
+	for i := 0; i < 4; i++ {
+		d := sha256.Sum256([]byte(fmt.Sprintf("polyverif-kv-stateful-key-%d", i)))
+		d[0] &= 0x7f
+		pk := ec.ConstructPrivateKey(d[:], elliptic.P256())
+		priv := &ec.PrivateKey{Algorithm: ec.ECDSA, PrivateKey: pk}
+		pub := &ec.PublicKey{Algorithm: ec.ECDSA, PublicKey: &pk.PublicKey}
+		stKeys = append(stKeys, &stKey{priv: priv, pub: pub, id: vconfig.PubkeyID(pub)})
+	}
+	native.Contracts[bdAddr] = func(s *native.NativeService) { s.Register("run", bdRun) }
 }
+
+func stChainID() uint64 { return config.GetChainIdByNetId(config.DefConfig.P2PNode.NetworkId) }
+
+func stPayload(withCfg bool) []byte {
+	info := &vconfig.VbftBlockInfo{Proposer: 0, LastConfigBlockNum: 0}
+	if withCfg {
+		cc := &vconfig.ChainConfig{Version: 1, View: 1, N: 4, C: 1, Peers: []*vconfig.PeerConfig{}}
+		for i, k := range stKeys {
+			cc.Peers = append(cc.Peers, &vconfig.PeerConfig{Index: uint32(i + 1), ID: k.id})
+		}
+		info.NewChainConfig = cc
+	}
+	b, _ := json.Marshal(info)
+	return b
+}
+
+// stTx returns test transaction i: an invocation of the scripted contract that stores one key.
+func stTx(i int) *types.Transaction {
+	for len(stTxs) <= i {
+		n := len(stTxs)
+		prog := []byte{1, 2, 0x73, byte(n), 1, byte(n)} // Put("s"+n, n)
+		ip := &states.ContractInvokeParam{Address: bdAddr, Method: "run", Args: prog}
+		code := common.NewZeroCopySink(nil)
+		ip.Serialization(code)
+		tx := &types.Transaction{Version: types.CURR_TX_VERSION, TxType: types.Invoke, Nonce: uint32(5000 + n), ChainID: stChainID(),
+			Payload: &payload.InvokeCode{Code: code.Bytes()}}
+		sink := common.NewZeroCopySink(nil)
+		if err := tx.Serialization(sink); err != nil {
+			panic(err)
+		}
+		t2, err := types.TransactionFromRawBytes(sink.Bytes())
+		if err != nil {
+			panic(err)
+		}
+		for _, o := range stTxs {
+			if o.Hash() == t2.Hash() {
+				panic("test transactions must have distinct hashes")
+			}
+		}
+		stTxs = append(stTxs, t2)
+	}
+	return stTxs[i]
+}
+
+func (f *statefulFam) Reset(r *hx.Run) { f.close() }
 
 func (f *statefulFam) close() {
 	if ledger.DefLedger != nil && f.dir != "" {
-		ledger.DefLedger.Close()
+		func() {
+			defer func() { recover() }()
+			ledger.DefLedger.Close()
+		}()
 		ledger.DefLedger = nil
 		os.RemoveAll(f.dir)
 		f.dir = ""
 	}
 }
 
+func (f *statefulFam) commit(kind string, idx []int) error {
+	l := ledger.DefLedger
+	cur := l.GetCurrentBlockHeight()
+	prev := l.GetCurrentBlockHash()
+	xroot, err := l.GetCrossStateRoot(cur)
+	if err != nil {
+		return err
+	}
+	hdr := &types.Header{Version: 0, ChainID: stChainID(), PrevBlockHash: prev, Timestamp: 1000 + cur + 1, Height: cur + 1,
+		ConsensusData: uint64(cur) + 8, ConsensusPayload: stPayload(false),
+		BlockRoot:      l.GetBlockRootWithPreBlockHashes(cur+1, []common.Uint256{prev}),
+		CrossStateRoot: xroot}
+	blk := &types.Block{Header: hdr}
+	for _, i := range idx {
+		blk.Transactions = append(blk.Transactions, stTx(i))
+	}
+	blk.RebuildMerkleRoot()
+	h := hdr.Hash()
+	for _, k := range stKeys {
+		hdr.Bookkeepers = append(hdr.Bookkeepers, k.pub)
+		sg, err := osig.Sign(osig.SHA256withECDSA, k.priv, h[:], nil)
+		if err != nil {
+			return err
+		}
+		raw, err := osig.Serialize(sg)
+		if err != nil {
+			return err
+		}
+		hdr.SigData = append(hdr.SigData, raw)
+	}
+	res, err := l.ExecuteBlock(blk)
+	if err != nil {
+		return err
+	}
+	if kind == "s" {
+		err = l.SubmitBlock(blk, res)
+	} else {
+		err = l.AddBlock(blk, res.MerkleRoot)
+	}
+	if err != nil {
+		return err
+	}
+	if l.GetCurrentBlockHeight() != cur+1 {
+		return fmt.Errorf("height did not advance")
+	}
+	return nil
+}
+
 func (f *statefulFam) Exec(r *hx.Run, op []string) string {
 	switch op[0] {
 	case "ledger":
-		log.InitLog(log.FatalLog)
+		stSetup()
 		f.close()
 		dir, err := os.MkdirTemp("", "hkv-stateful-")
 		if err != nil {
@@ -75,15 +212,17 @@ func (f *statefulFam) Exec(r *hx.Run, op []string) string {
 			panic(err)
 		}
 		ledger.DefLedger = l
-		bk, _ := config.DefConfig.GetBookkeepers()
-		f.gen = genesisBlock()
-		if err := l.Init(bk, f.gen); err != nil {
+		gen := &types.Block{Header: &types.Header{Version: 0, ChainID: stChainID(), Timestamp: 1000, Height: 0, ConsensusData: 7,
+			ConsensusPayload: stPayload(true)}}
+		gen.RebuildMerkleRoot()
+		pubs := []keypair.PublicKey{}
+		for _, k := range stKeys {
+			pubs = append(pubs, k.pub)
+		}
+		if err := l.Init(pubs, gen); err != nil {
 			panic(err)
 		}
-		n, _ := strconv.Atoi(op[1])
-		if len(f.gen.Transactions) != n {
-			return fmt.Sprintf("genesis-has-%d-transactions", len(f.gen.Transactions))
-		}
+		f.committed = map[int]bool{}
 		f.serial++
 		id := fmt.Sprintf("hkv-stateful-%d", f.serial)
 		if _, err := stateful.NewValidator(id); err != nil {
@@ -91,14 +230,22 @@ func (f *statefulFam) Exec(r *hx.Run, op []string) string {
 		}
 		f.pid = actor.NewLocalPID(id)
 		return "ok"
-	case "check":
-		i, _ := strconv.Atoi(op[2])
-		var tx *types.Transaction
-		if op[1] == "g" {
-			tx = f.gen.Transactions[i]
-		} else {
-			tx = incTx(i)
+	case "commit":
+		var idx []int
+		for _, t := range op[2:] {
+			i, _ := strconv.Atoi(t)
+			idx = append(idx, i)
 		}
+		if err := f.commit(op[1], idx); err != nil {
+			return "err:" + strings.ReplaceAll(err.Error(), " ", "_")
+		}
+		for _, i := range idx {
+			f.committed[i] = true
+		}
+		return "ok"
+	case "check":
+		i, _ := strconv.Atoi(op[1])
+		tx := stTx(i)
 		fut := f.pid.RequestFuture(&vatypes.CheckTx{WorkerId: 3, Tx: tx}, 10*time.Second)
 		res, err := fut.Result()
 		if err != nil {
@@ -117,14 +264,13 @@ func (f *statefulFam) Exec(r *hx.Run, op []string) string {
 		}
 		in, err := ledger.DefLedger.IsContainTransaction(tx.Hash())
 		if err == nil && in != (out == "dup") {
-			r.Viol("C38:stateful-verdict-differs-from-ledger:in-ledger="+strconv.FormatBool(in),
-				fmt.Sprintf("stateful validation of %x answered %s, ledger contains it: %v", tx.Hash(), out, in))
+			r.Viol(fmt.Sprintf("C38:stateful-verdict-differs-from-ledger:in-ledger=%v:verdict=%s", in, out),
+				fmt.Sprintf("stateful validation of transaction %d (%x) answered %s at height %d, but ledger.IsContainTransaction is %v at that moment",
+					i, tx.Hash(), out, ledger.DefLedger.GetCurrentBlockHeight(), in))
 		}
-		if op[1] == "g" && out != "dup" {
-			r.Viol("C38:stateful-accepts-included-tx", fmt.Sprintf("genesis transaction %d passed stateful validation (%s)", i, out))
-		}
-		if op[1] == "n" && out != "ok" {
-			r.Viol("C38:stateful-rejects-fresh-tx", fmt.Sprintf("a transaction that is not in the ledger got %s", out))
+		if err == nil && in != f.committed[i] {
+			r.Viol("C38:ledger-transaction-index-differs-from-committed-blocks",
+				fmt.Sprintf("IsContainTransaction(tx %d) = %v, committed by the harness: %v", i, in, f.committed[i]))
 		}
 		if rsp.Hash != tx.Hash() || rsp.WorkerId != 3 || rsp.Type != vatypes.Stateful {
 			r.Viol("C38:stateful-response-mislabelled", "response does not carry the request's hash / worker id / type")
@@ -135,21 +281,94 @@ func (f *statefulFam) Exec(r *hx.Run, op []string) string {
 }
 
 func (f *statefulFam) Gen(r *hx.Run) {
-	r.Rule("one real ledger per case holding the genesis block; CheckTx through the stateful validator actor for every genesis transaction and for transactions not in the ledger; distinct non-trivial = distinct queried transactions")
-	n := len(genesisBlock().Transactions)
-	for c := 0; c < r.Pick(2, 6); c++ {
+	r.Rule("real ledgers growing by signed blocks; CheckTx through the stateful validator actor before and after the transaction is committed, with blocks that do / do not contain it, " +
+		"with and without checks of other fresh or committed transactions in between, both commit paths; distinct non-trivial = distinct (transaction, committed?, checked-before?, interleaving) situations")
+	commitKinds := []string{"s", "a"}
+	nCases := r.Pick(6, 60)
+	for c := 0; c < nCases; c++ {
 		r.Case(fmt.Sprintf("ledger-%d", c))
-		r.Do(fmt.Sprintf("ledger %d", n))
-		for k := 0; k < r.Pick(20, 200); k++ {
-			if r.Rng.Bool() && n > 0 {
-				i := r.Rng.Intn(n)
-				r.Do(fmt.Sprintf("check g %d", i))
-				r.Nontrivial(fmt.Sprintf("g%d", i))
-			} else {
-				i := r.Rng.Intn(40)
-				r.Do(fmt.Sprintf("check n %d", i))
-				r.Nontrivial(fmt.Sprintf("n%d", i))
+		r.Do("ledger")
+		next := 0 // transactions >= next were never used in this case
+		fresh := func() int { next++; return next - 1 }
+		var pendingChecked []int // checked while absent, not yet committed
+		var committed []int
+		steps := r.Pick(14, 40)
+		// scripted core: check(T) -> commit(T) -> check(T), with the interleavings that matter
+		for _, inter := range []string{"none", "other-fresh", "other-committed", "empty-block", "block-without-T"} {
+			t := fresh()
+			r.Do(fmt.Sprintf("check %d", t))
+			switch inter {
+			case "other-fresh":
+				r.Do(fmt.Sprintf("check %d", fresh()))
+			case "other-committed":
+				if len(committed) > 0 {
+					r.Do(fmt.Sprintf("check %d", committed[r.Rng.Intn(len(committed))]))
+				}
+			case "empty-block":
+				r.Do("commit " + commitKinds[r.Rng.Intn(2)])
+				r.Do(fmt.Sprintf("check %d", t))
+			case "block-without-T":
+				o := fresh()
+				r.Do(fmt.Sprintf("commit %s %d", commitKinds[r.Rng.Intn(2)], o))
+				committed = append(committed, o)
+				r.Do(fmt.Sprintf("check %d", t))
 			}
+			r.Do(fmt.Sprintf("commit %s %d", commitKinds[r.Rng.Intn(2)], t))
+			committed = append(committed, t)
+			r.Do(fmt.Sprintf("check %d", t))
+			r.Do(fmt.Sprintf("check %d", t))
+			r.Nontrivial("core:" + inter)
+		}
+		// random continuation
+		for s := 0; s < steps; s++ {
+			switch x := r.Rng.Intn(100); {
+			case x < 25:
+				t := fresh()
+				r.Do(fmt.Sprintf("check %d", t))
+				pendingChecked = append(pendingChecked, t)
+				r.Nontrivial("check-fresh")
+			case x < 40 && len(pendingChecked) > 0:
+				t := pendingChecked[r.Rng.Intn(len(pendingChecked))]
+				r.Do(fmt.Sprintf("check %d", t))
+				r.Nontrivial("recheck-absent")
+			case x < 60 && len(committed) > 0:
+				r.Do(fmt.Sprintf("check %d", committed[r.Rng.Intn(len(committed))]))
+				r.Nontrivial("check-committed")
+			case x < 85:
+				// commit a block: some previously checked absent transactions, some never seen, maybe none
+				var idx []string
+				k := r.Rng.Intn(4)
+				for j := 0; j < k; j++ {
+					if len(pendingChecked) > 0 && r.Rng.Bool() {
+						p := r.Rng.Intn(len(pendingChecked))
+						t := pendingChecked[p]
+						pendingChecked = append(pendingChecked[:p], pendingChecked[p+1:]...)
+						idx = append(idx, strconv.Itoa(t))
+						committed = append(committed, t)
+						r.Nontrivial("commit-checked")
+					} else {
+						t := fresh()
+						idx = append(idx, strconv.Itoa(t))
+						committed = append(committed, t)
+						r.Nontrivial("commit-unseen")
+					}
+				}
+				r.Do(strings.TrimSpace(fmt.Sprintf("commit %s %s", commitKinds[r.Rng.Intn(2)], strings.Join(idx, " "))))
+				// immediately re-check one of them half of the time
+				if len(idx) > 0 && r.Rng.Bool() {
+					r.Do("check " + idx[r.Rng.Intn(len(idx))])
+				}
+			default:
+				r.Do("commit " + commitKinds[r.Rng.Intn(2)])
+			}
+		}
+		for _, t := range committed {
+			if r.Rng.Chance(1, 2) {
+				r.Do(fmt.Sprintf("check %d", t))
+			}
+		}
+		for _, t := range pendingChecked {
+			r.Do(fmt.Sprintf("check %d", t))
 		}
 	}
 	f.close()
